@@ -468,6 +468,39 @@ def run(ctx):
                 if not ev["fired"]:
                     break
                 fired_total += 1
+        # (c+) a removal that matches several hundred names, with the storage failing early, in the middle and late in it: all or
+        # nothing, whatever number of statements (or of transactions) the storage needs for it
+        pair = Pair(nameserver, dbdir, "big")
+        digits = (1, 3, 5, 6)
+        entries = []
+        for i in range(520):
+            nm = [1] + [digits[(i // 4 ** j) % 4] for j in range(5)]
+            tg = [1 + i % 3] if i % 7 == 0 else []
+            for ns in (pair.mem, pair.sql):
+                ns.register(name_str(nm), URI[1 + i % 2], metadata=[TAG[t] for t in tg] or None)
+            entries.append({"name": nm, "uri": 1 + i % 2, "tags": tg})
+        bulk = {"e": "bulk", "entries": entries, "memlist": listing(pair.mem), "sqllist": listing(pair.sql)}
+        snap = pair.snapshot()
+        big_fired = 0
+        for o in ({"op": "remove", "sel": "prefix", "arg": [1], "kind": "none", "meta": False},
+                  {"op": "remove", "sel": "regex", "arg": [1], "kind": "prefix", "meta": False}):
+            # (how many statements the storage needs is its own business: the failure points are spread over however many it takes)
+            pair.restore(snap)
+            PLAN.arm(10 ** 9)
+            apply_op(pair.sql, norm_op(o), errors)
+            nst = PLAN.count
+            PLAN.arm(0)
+            for k in sorted({2, 3, nst // 4, nst // 2, nst // 2 + 1, 3 * nst // 4, nst - 2, nst - 1, nst}):
+                if k < 1:
+                    continue
+                pair.restore(snap)
+                ev = pair.step(o, errors, fail=k)
+                traces.append([bulk, ev, pair.reopen()])
+                metas.append({"part": "failpoint", "op": o, "k": k, "fired": ev["fired"], "names": 520})
+                ctx.count(("bigfail", json.dumps(o, sort_keys=True), k))
+                big_fired += bool(ev["fired"])
+        if big_fired < 8:
+            raise util.MachineryError("vacuity: only %d injected failures fired in the large removal" % big_fired)
         if fired_total < 30:
             raise util.MachineryError("vacuity: only %d injected storage failures fired" % fired_total)
         ctx.extra["failure_points_fired"] = fired_total
